@@ -1,8 +1,12 @@
 mod ctl;
+mod gitmodel;
 mod harness;
+mod logparse;
 mod models;
 mod prng;
+mod props_git;
 mod props_run;
+mod props_store;
 mod proto;
 mod rundrv;
 mod runworld;
@@ -17,6 +21,11 @@ fn props() -> Vec<Box<dyn Property>> {
         Box::new(props_run::C06),
         Box::new(props_run::C11),
         Box::new(props_run::C16),
+        Box::new(props_git::C02),
+        Box::new(props_git::C07),
+        Box::new(props_git::C19),
+        Box::new(props_store::C12),
+        Box::new(props_store::C13),
     ]
 }
 
